@@ -111,7 +111,8 @@ def driver_json(reqs: list[dict], timeout=1800, exe: str = "driver") -> list[dic
 
 # ------------------------------------------------------------------------------------------ reporting
 class Ctx:
-    def __init__(self, prop: str, tier: str, seed: int, driver_ok: bool, search: bool = False):
+    def __init__(self, prop: str, tier: str, seed: int, driver_ok: bool, search: bool = False, boost: bool = False):
+        self.boost = boost                  # the property's anchored source changed since the recorded fingerprint: enlarged budgets
         self.prop = prop
         self.tier = tier
         self.seed = seed
@@ -134,7 +135,11 @@ class Ctx:
 
     def scale(self, quick: int, thorough: int) -> int:
         n = thorough if self.thorough else quick
-        return n * 4 if self.search and not self.thorough else n
+        if self.thorough:
+            return n
+        if self.search:
+            return n * 4
+        return n * 3 if self.boost else n
 
     def case(self, tag: str, sample=None, n: int = 1):
         self.evaluations += n
